@@ -230,14 +230,7 @@ func RecoverDroppedColumnData(dataDir, dbName, tableName string, attNum int) (*D
 	}
 	
 	tables := ParsePGClass(classData)
-	var tableInfo *TableInfo
-	for _, t := range tables {
-		if t.Name == tableName {
-			info := t
-			tableInfo = &info
-			break
-		}
-	}
+	tableInfo := findTableByName(tables, tableName)
 	if tableInfo == nil {
 		return nil, fmt.Errorf("table %q not found", tableName)
 	}
@@ -430,11 +423,8 @@ func GetDroppedColumnSchema(dataDir, dbName, tableName string) ([]Column, error)
 	
 	tables := ParsePGClass(classData)
 	var tableOID uint32
-	for _, t := range tables {
-		if t.Name == tableName {
-			tableOID = t.OID
-			break
-		}
+	if t := findTableByName(tables, tableName); t != nil {
+		tableOID = t.OID
 	}
 	if tableOID == 0 {
 		return nil, fmt.Errorf("table %q not found", tableName)
@@ -447,4 +437,18 @@ func GetDroppedColumnSchema(dataDir, dbName, tableName string) ([]Column, error)
 	
 	attrs := parseAllAttributes(attrData, tableOID)
 	return buildColumnsWithDropped(attrs), nil
+}
+
+// findTableByName returns the relation called name. Relation names are unique per schema only and
+// tables is a map (random iteration order), so of several relations with that name the one with
+// the lowest filenode is returned, the same on every call.
+func findTableByName(tables map[uint32]TableInfo, name string) *TableInfo {
+	var found *TableInfo
+	for _, t := range tables {
+		if t.Name == name && (found == nil || t.Filenode < found.Filenode) {
+			info := t
+			found = &info
+		}
+	}
+	return found
 }
